@@ -351,6 +351,14 @@ def gen_code(r, lims):
     (stack depth kept, slot references inside the rule, numbers below the limits `lims` = (classes, gattrs, feats, user)), with
     boundary values mixed in"""
     classes, gattrs, feats, user = lims
+    if r.random() < 0.06:
+        # long runs of the opcodes that move the loader's slot cursor and output length: INSERT xN (the cursor stays at -1, the
+        # output length grows), then NEXT xM / DELETE and NEXT alternating – far more than a rule has slots
+        rl = r.choice([1, 2, 5, 63])
+        pre = r.randrange(0, rl)
+        n, m = r.choice([(3, 5), (70, 70), (300, 300), (300, 64), (0, 70), (260, 258)])
+        body = bytes([31] * n + [25] * m) if r.random() < 0.7 else bytes([31] * n + [25, 32] * (m // 2) + [25] * 3)
+        return False, r.choice([1, 2, 2]), pre, rl, body + bytes([49])
     cons = r.random() < 0.35
     pt = r.choice([1, 2, 2, 3, 3, 4])
     rl = r.choice([1, 2, 3, 4, 6, 10, 63]) if r.random() < 0.95 else r.choice([0, 64, 255, 300])
